@@ -197,7 +197,9 @@ def run_case(spec, ctx):
                             cmp_self += 1
                             # two IEEE operations, plus a few ulp of f itself: a jitted step recomputes f inside another
                             # compiled kernel (other vectorised exp/log code paths), so f is not bit-identical to rhs()'s
-                            bound = 4 * U * max(abs(x), abs(dt * f)) + 64 * U * abs(dt * f) + 1e-300
+                            # (XLA evaluates pow / exp / log of the fused step with other code paths than in rhs: observed up to
+                            # 200 ulp of f for x**y; numpy and C execute the very same expression in both functions)
+                            bound = 4 * U * max(abs(x), abs(dt * f)) + (1e-12 if be == "jax" else 64 * U) * abs(dt * f) + 1e-300
                             if not (abs(got - (x + dt * f)) <= bound):
                                 if len(out["violations"]) < 6:
                                     out["violations"].append({"kind": "not_x_plus_dt_rhs", "detail": {"fn": fn, "state": s, "x": x, "dt": dt, "rhs": f, "got": got, "want": x + dt * f, "backend": be}})
